@@ -173,23 +173,23 @@ Definition spec_shape (n : nat) (r : list str) : list (option str) :=
   firstn n (map Some r ++ repeat None n).
 
 (* ---- R6: filters, row by row, one at a time in the order given -------------------------------------- *)
-(* Some true = the row stays, Some false = it is removed; Err = an item needed for a numeric
-   comparison does not convert.  An item a row does not have is absent (None). *)
-Definition spec_filter_row (names : list str) (syn : list (str * str)) (nullstr mdt : str) (ignore : bool)
-           (f : filt) (r : list str) : res bool :=
+(* Ok true = the row stays, Ok false = it is removed; Err = an item needed for a numeric comparison
+   does not convert.  `get j` is the raw item of the row in column j (None: the row has no such
+   item); `conv` is the item conversion. *)
+Definition filter_get (conv : option str -> res cell) (names : list str) (syn : list (str * str)) (ignore : bool)
+           (f : filt) (get : nat -> option str) : res bool :=
   let '(op, kind) := match f_op f with
                      | None => (CEq, KStr)
                      | Some t => match op_of_text t with Some tok => op_table tok | None => (CEq, KStr) end
                      end in
   let e := unquote (f_expr f) in
   match index_of (filter_column syn f) names with
-  | None => Err OtherErr
+  | None => match kind with KStr => Err OtherErr | KFloat => Err KeyErr end
   | Some j =>
-      let item := nth_error r j in
       match kind with
-      | KStr => Ok (keep_of ignore (cmp_str op item e))
+      | KStr => Ok (keep_of ignore (cmp_str op (get j) e))
       | KFloat =>
-          match spec_item nullstr mdt item with
+          match conv (get j) with
           | Err e' => Err e'
           | Ok v => match pyfloat e with
                     | None => Err OtherErr
@@ -199,17 +199,22 @@ Definition spec_filter_row (names : list str) (syn : list (str * str)) (nullstr 
       end
   end.
 
-Fixpoint spec_filters_row (names : list str) (syn : list (str * str)) (nullstr mdt : str) (ignore : bool)
-         (fs : list filt) (r : list str) : res bool :=
+(* the filters one at a time, in the order given; a removed row is not looked at again *)
+Fixpoint filters_get (conv : option str -> res cell) (names : list str) (syn : list (str * str)) (ignore : bool)
+         (fs : list filt) (get : nat -> option str) : res bool :=
   match fs with
   | [] => Ok true
   | f :: tl =>
-      match spec_filter_row names syn nullstr mdt ignore f r with
+      match filter_get conv names syn ignore f get with
       | Err e => Err e
-      | Ok false => Ok false                           (* removed: later filters never see the row *)
-      | Ok true => spec_filters_row names syn nullstr mdt ignore tl r
+      | Ok false => Ok false
+      | Ok true => filters_get conv names syn ignore tl get
       end
   end.
+
+Definition spec_filters_row (names : list str) (syn : list (str * str)) (nullstr mdt : str) (ignore : bool)
+           (fs : list filt) (r : list str) : res bool :=
+  filters_get (spec_item nullstr mdt) names syn ignore fs (nth_error r).
 
 Fixpoint filterM {A} (p : A -> res bool) (l : list A) : res (list A) :=
   match l with
@@ -282,8 +287,14 @@ Definition data_lines (i : input) : list str :=
 Definition data_rows (i : input) : list (list str) := map spec_items (data_lines i).
 
 Definition edge_tab (l : str) : bool :=
-  match dropwhile (N.eqb c_sp) l with c :: _ => N.eqb c c_tab | [] => false end ||
-  match dropwhile (N.eqb c_sp) (rev l) with c :: _ => N.eqb c c_tab | [] => false end.
+  let m := dropwhile (fun c => N.eqb c_sp c) l in
+  match m with c :: _ => N.eqb c c_tab | [] => false end ||
+  match dropwhile (fun c => N.eqb c_sp c) (rev m) with c :: _ => N.eqb c c_tab | [] => false end.
+(* the rows split_spec speaks about: no whitespace other than space and TAB, not blank, no TAB at
+   either end *)
+Definition row_char (c : N) : bool := negb (is_pyspace c) || N.eqb c c_sp || N.eqb c c_tab.
+Definition g_row (row : str) : bool :=
+  forallb row_char row && negb (forallb is_blankc row) && negb (edge_tab row).
 (* [class] no row starts or ends with a TAB (the documentation does not say what that means) *)
 Definition g_edge_tab (i : input) : bool := forallb (fun l => negb (edge_tab l)) (data_lines i).
 
@@ -340,7 +351,7 @@ Definition g_id_drop (names : list str) (drops : list bool) (i : input) : bool :
       match index_of l names with
       | None => true
       | Some j => negb (nth j drops false) ||
-                  forallb (fun r => match nth_error r j with Some x => pyint_ok x | None => false end) (data_rows i)
+                  forallb (fun r => match nth_error r j with Some x => pyint_small x | None => false end) (data_rows i)
       end
   end.
 (* [class] when the id column is dropped no other id column takes over *)
@@ -357,11 +368,26 @@ Definition g_no_date (names : list str) : bool := negb (has_date names).
 (* [class] column names (dropped ones included) are unique *)
 Definition g_names_unique (names : list str) : bool := nodup_s names.
 
+(* [class] every filter names an existing column and a numeric filter compares with a plain number *)
+Definition filters_valid (names : list str) (syn : list (str * str)) (fs : list filt) : bool :=
+  forallb (fun f => match index_of (filter_column syn f) names with Some _ => true | None => false end &&
+                    (is_kstr (filter_kind f) || match pyfloat (unquote (f_expr f)) with Some _ => true | None => false end))
+          fs.
+Definition g_filters_valid (names : list str) (syn : list (str * str)) (i : input) : bool :=
+  filters_valid names syn (i_ignore i ++ i_accept i).
+
+(* [class] a TIME column lies within the width of the first row *)
+Definition g_time_col (names : list str) (drops : list bool) (i : input) : bool :=
+  match index_of s_TIME names with
+  | Some j => nth j drops false || (j <? first_width i)
+  | None => true
+  end.
+
 Definition item_signed_d_ok (x : str) : bool := negb (signed_d x).
 Definition item_anchored_ok (x : str) : bool := g_anchored x.
 Definition item_charset_ok (x : str) : bool := g_charset x.
 
-(* the conjuncts, in the order of the guard tags 201.. of Check.verdict *)
+(* the conjuncts, in the order of the guard tags 201..217 of Check.verdict *)
 Definition guard_conjuncts (i : input) : list bool :=
   match column_info (i_options i) with
   | Err _ => []
@@ -373,6 +399,117 @@ Definition guard_conjuncts (i : input) : list bool :=
         g_first_width names i; g_rows_within names i; g_filter_cols names syn i;
         g_items item_signed_d_ok names drops syn i; g_items item_anchored_ok names drops syn i;
         g_items item_charset_ok names drops syn i;
-        g_id_drop names drops i; g_id_choice names drops; g_no_date names; g_names_unique names ]
+        g_id_drop names drops i; g_id_choice names drops; g_no_date names; g_names_unique names;
+        g_filters_valid names syn i; g_time_col names drops i ]
   end.
 Definition guard (i : input) : bool := forallb (fun b => b) (guard_conjuncts i).
+
+(* the part of a result NM-TRAN keeps: the columns that are not dropped *)
+Definition project_kept (i : input) (r : res (list (str * list cell))) : res (list (str * list cell)) :=
+  match r, column_info (i_options i) with
+  | Ok t, Ok ci => Ok (kept_of (ci_drop ci) t)
+  | _, _ => r
+  end.
+
+(* =====================================================================================================
+   The write/read cycle.  write_csv: DataFrame.to_csv(path, na_rep=missing_data_token, index=False) —
+   a header line with the column names and one comma separated line per row; update_source then
+   generates $INPUT with the column names and $DATA with IGNORE=@ (IGNORE=c when the first name
+   does not start with a letter) and without IGNORE/ACCEPT lists.  How to_csv prints a double is an
+   engine: `pr`.  The guard below says what the theorem needs from it.
+   ===================================================================================================== *)
+Fixpoint join_comma (l : list str) : str :=
+  match l with
+  | [] => []
+  | [x] => x
+  | x :: tl => x ++ c_comma :: join_comma tl
+  end.
+
+Definition tok_char (c : N) : bool := negb (is_pyspace c) && negb (N.eqb c c_comma).
+
+Definition okq (o : option Q) (q : Q) : bool := match o with Some x => Qeq_bool x q | None => false end.
+
+Section Writer.
+  Variable pr : Q -> str.
+
+  Definition pr_cell (mdt : str) (c : cell) : str :=
+    match c with CNum q => pr q | CNaN => mdt | CStr s => s end.
+  Definition csv_lines (mdt : str) (hdr : list str) (rows : list (list cell)) : list str :=
+    join_comma hdr :: map (fun r => join_comma (map (pr_cell mdt) r)) rows.
+  Definition csv_text (mdt : str) (hdr : list str) (rows : list (list cell)) : str :=
+    flat_map (fun l => l ++ [c_nl]) (csv_lines mdt hdr rows).
+  (* set_ignore_character_from_header *)
+  Definition hdr_ignchar (hdr : list str) : N :=
+    match hdr with (c :: _) :: _ => if is_alpha c then c_at else c | _ => c_at end.
+  (* the written file read through a $INPUT record `opts` and the generated $DATA record *)
+  Definition cycle_input_opts (opts : list (str * option str)) (mdt : str) (hdr : list str) (rows : list (list cell)) : input :=
+    mkInput (csv_text mdt hdr rows) opts (Some [hdr_ignchar hdr]) None [] [] mdt.
+  Definition cycle_input (mdt : str) (hdr : list str) (rows : list (list cell)) : input :=
+    cycle_input_opts (map (fun nm => (nm, None)) hdr) mdt hdr rows.
+
+  (* what reading the printed cell gives *)
+  Definition reparse (mdt : str) (c : cell) : cell :=
+    match convert_item [c_0] mdt (Some (pr_cell mdt c)) with Ok v => v | Err _ => CNaN end.
+
+  Definition name_ok (nm : str) : bool := negb (is_nil nm) && forallb tok_char nm && negb (is_dropword nm).
+  (* the printed cell is a clean token that reads back as the value *)
+  Definition cell_ok (mdt : str) (c : cell) : bool :=
+    let s := pr_cell mdt c in
+    negb (is_nil s) && forallb tok_char s && (length s <=? 24) && negb (str_eqb s [c_dot]) &&
+    match c with
+    | CNum q => negb (str_eqb s mdt) && okq (convert s) q
+    | CNaN => true
+    | CStr _ => false
+    end.
+  Definition is_num (c : cell) : bool := match c with CNum _ => true | _ => false end.
+  Definition int_ok (c : cell) : bool :=
+    match c with CNum q => Qeq_bool (inject_Z (Z.quot (Qnum q) (Zpos (Qden q)))) q | _ => false end.
+  (* the id column has NM-TRAN-valid blocks (no id is re-used later) and no missing value; the int32
+     columns hold integers *)
+  Definition col_ok (lbl : option str) (nm : str) (cells : list cell) : bool :=
+    (negb (is_label lbl nm) ||
+     (forallb is_num cells && Nat.eqb (count_true (id_changes None cells)) (nunique_from [] cells))) &&
+    (negb (mems nm int32_names) || forallb int_ok cells).
+  Fixpoint cols_ok (lbl : option str) (mdt : str) (hdr : list str) (rows : list (list cell)) : bool :=
+    match hdr with
+    | [] => true
+    | nm :: ns => col_ok lbl nm (map (fun r => reparse mdt (hd CNaN r)) rows) && cols_ok lbl mdt ns (map (@tl cell) rows)
+    end.
+
+  Definition cycle_guard (mdt : str) (hdr : list str) (rows : list (list cell)) : bool :=
+    let ic := hdr_ignchar hdr in
+    let n := length hdr in
+    negb (regex_unsafe ic) && (1 <=? n) && nodup_s hdr && forallb name_ok hdr && negb (has_date hdr) &&
+    comment_line ic (join_comma hdr) && negb (is_nil rows) &&
+    forallb (fun r => Nat.eqb (length r) n && forallb (cell_ok mdt) r &&
+                      negb (comment_line ic (join_comma (map (pr_cell mdt) r)))) rows &&
+    cols_ok (id_label hdr) mdt hdr rows.
+
+  Definition cells_same (a b : list cell) : bool :=
+    Nat.eqb (length a) (length b) && forallb (fun xy => cell_eqb (fst xy) (snd xy)) (combine a b).
+  (* the columns of a row-major table *)
+  Fixpoint transpose (n : nat) (rows : list (list cell)) : list (list cell) :=
+    match n with
+    | 0 => []
+    | S k => map (hd CNaN) rows :: transpose k (map (@tl cell) rows)
+    end.
+  (* the table read back has the columns of the table written, value by value *)
+  Definition table_same (t : list (str * list cell)) (hdr : list str) (rows : list (list cell)) : bool :=
+    list_eqb str_eqb (map fst t) hdr && list_eqb cells_same (map snd t) (transpose (length hdr) rows).
+End Writer.
+
+(* ---- the $INPUT record update_input generates from the old one -------------------------------------- *)
+Definition opt_drop (o : str * option str) : bool :=
+  match o with
+  | (key, Some value) => is_dropword key || is_dropword value
+  | (key, None) => is_dropword key
+  end.
+(* [finding] an anonymous DROP/SKIP among the first n options of the old $INPUT is never replaced *)
+Definition g_no_anon (old : list (str * option str)) (n : nat) : bool :=
+  forallb (fun g => match g with Some _ => true | None => false end) (firstn n (given_names old)).
+(* [class] no old option that drops a column carries the name of the new column at its position
+   (set_dataset keeps the drop flag of such a column) *)
+Definition g_no_same_dropped (old : list (str * option str)) (new : list str) : bool :=
+  forallb (fun on => negb (opt_drop (fst on) &&
+                           match given_names [fst on] with [Some x] => str_eqb x (snd on) | _ => false end))
+          (combine old new).
